@@ -127,11 +127,11 @@ theorem compareAttributes_strEq_iff {va vb : Value} {ka kb : List Tree}
     constructor
     · intro h kv hkv
       have := h kv hkv
-      split at this
-      · rename_i v hv; simp [strEq] at this; rw [hv, this]
-      · cases this
+      cases hl : List.lookup kv.1 (attrPairs kb) with
+      | none => rw [hl] at this; simp [cmpFound] at this
+      | some v => rw [hl] at this; simp [cmpFound, strEq] at this; rw [this]
     · intro h kv hkv
-      rw [h kv hkv]; simp [strEq]
+      rw [h kv hkv]; simp [cmpFound, strEq]
   · have : ((attrPairs ka).length != (attrPairs kb).length) = true := by simpa using hlen
     simp [this, hlen]
 
